@@ -11,7 +11,7 @@
    display exactly [show S] for the surface S drawn for that frame, and no
    command may be a protocol error. *)
 From Coq Require Import List NArith Bool Arith.
-From SNT Require Export Base.Report Render.Cell Render.Screen Render.Frame Render.Domain Render.Spec.
+From SNT Require Export Base.Report Render.Cell Render.Screen Render.Frame Render.Domain Render.Spec Render.Loop.
 Import ListNotations.
 
 Definition c (f ch : N) : cell := mkcell f (KChar ch).
@@ -27,10 +27,17 @@ Fixpoint lookup {B} (l : list (N * B)) (k : N) (d : B) : B :=
 (* glyph (g, face) -> image id; the harness numbers rasterised glyph images the same way *)
 Definition glyph_image (g f : N) : N := (1000 + 16 * g + f)%N.
 
-Definition mk_oracle (widths : list (N * N)) (isizes : list (N * (N * N))) : oracle :=
+Fixpoint nmem (k : N) (l : list N) : bool :=
+  match l with [] => false | x :: t => N.eqb k x || nmem k t end.
+
+(* fsp / fer: how a printed space / an erased cell of each face looks (identity where not listed);
+   ers: the faces without underline, strike or reverse attribute *)
+Definition mk_oracle (widths : list (N * N)) (isizes : list (N * (N * N)))
+           (fsp fer : list (N * N)) (ers : list N) : oracle :=
   mkoracle (fun ch => N.to_nat (lookup widths ch 1%N))
            (fun i => let '(a, b) := lookup isizes i (1%N, 1%N) in (N.to_nat a, N.to_nat b))
-           glyph_image.
+           glyph_image
+           (fun f => lookup fsp f f) (fun f => lookup fer f f) (fun f => nmem f ers).
 
 (* case files are written with N literals only *)
 Definition to (r c : N) : cmd := CCursorTo (N.to_nat r) (N.to_nat c).
@@ -39,9 +46,31 @@ Definition img (i r c : N) : cmd := CImage i (N.to_nat r) (N.to_nat c).
 Definition unimg (i r c : N) : cmd := CImageErase i (Some (N.to_nat r, N.to_nat c)).
 Definition unimg_all (i : N) : cmd := CImageErase i None.
 
+(* screens and the resize operation in case files *)
+Definition sb (f : N) : scell := (Blank, f).
+Definition sc (ch f : N) : scell := (Ch ch, f).
+Definition sl (ch f : N) : scell := (WL ch, f).
+Definition sr (f : N) : scell := (WR, f).
+Definition so (f : N) : scell := (Orphan, f).
+Definition rsz (h w : N) (g : grid scell) : op := Resize (N.to_nat h) (N.to_nat w) g.
+
+(* an iteration of the render loop in case files *)
+Definition itr (a : N) (s : grid cell) (frame : bool) (p : option N) (k : N) : iter :=
+  mkiter (N.to_nat a) s (if frame then AWait else AWaitNoFrame) (option_map N.to_nat p) (N.to_nat k).
+
 Inductive c01_case :=
   Hist (h w : N) (widths : list (N * N)) (isizes : list (N * (N * N)))
-       (ops : list op) (impl : list (list cmd)) (overlap : bool).
+       (fsp fer : list (N * N)) (ers : list N)
+       (ops : list op) (impl : list (list cmd)) (ovl_ii ovl_wi ovl_ww : bool)
+| Forced (h w : N) (widths : list (N * N)) (isizes : list (N * (N * N)))
+         (fsp fer : list (N * N)) (ers : list N)
+         (g : grid scell) (foreign : list (N * N * N)) (s : grid cell) (impl : list cmd) (good : bool)
+    (* TerminalRenderer::new(term, true) on a terminal showing g with placements [foreign]; draw s; frame *)
+| Loop (h w : N) (widths : list (N * N)) (isizes : list (N * (N * N)))
+       (fsp fer : list (N * N)) (ers : list N)
+       (its : list iter) (impl : list (bool * list cmd)) (good stale : bool).
+    (* the real Terminal::run_render with a scripted handler, on a terminal with a queue of chunks:
+       per iteration (frames_drop was called, commands issued) *)
 
 Definition cmd_eqb (a b : cmd) : bool :=
   match a, b with
@@ -52,27 +81,67 @@ Definition cmd_eqb (a b : cmd) : bool :=
   | CImage i r c, CImage j r' c' => N.eqb i j && Nat.eqb r r' && Nat.eqb c c'
   | CImageErase i None, CImageErase j None => N.eqb i j
   | CImageErase i (Some (r, c)), CImageErase j (Some (r', c')) => N.eqb i j && Nat.eqb r r' && Nat.eqb c c'
+  | CSync a, CSync b => Bool.eqb a b
   | COther, COther => true
   | _, _ => false
   end.
 
-Definition drawn_surfaces (ops : list op) : list (grid cell) :=
-  flat_map (fun x => match x with Draw g => [g] | _ => [] end) ops.
+(* the drawn surfaces with the terminal size at the time; resize screens must have the new size *)
+Fixpoint sized_surfaces (h w : nat) (ops : list op) : list (nat * nat * grid cell) :=
+  match ops with
+  | [] => []
+  | Draw g :: ops' => (h, w, g) :: sized_surfaces h w ops'
+  | Resize h' w' _ :: ops' => sized_surfaces h' w' ops'
+  | _ :: ops' => sized_surfaces h w ops'
+  end.
+Definition resizes_ok (ops : list op) : bool :=
+  forallb (fun x => match x with Resize h w g => grid_dims g h w | _ => true end) ops.
 
 Definition c01_check (k : c01_case) : bool * bool :=
   match k with
-  | Hist hN wN widths isizes ops impl overlap =>
+  | Hist hN wN widths isizes fsp fer ers ops impl oii owi oww =>
       let h := N.to_nat hN in
       let w := N.to_nat wN in
-      let o := mk_oracle widths isizes in
-      let surfs := drawn_surfaces ops in
-      let dom := forallb (in_domain o h w) surfs in
-      let ovl := negb (forallb (overlap_free o h w) surfs) in
+      let o := mk_oracle widths isizes fsp fer ers in
+      let surfs := sized_surfaces h w ops in
+      let dom := forallb (fun '(h, w, g) => in_domain o h w g) surfs && resizes_ok ops in
+      let ovl := negb (forallb (fun '(h, w, g) => overlap_free o h w g) surfs) in
+      let kinds := map (fun '(h, w, g) => overlap_kinds o h w g) surfs in
+      let any := fun (sel : bool * bool * bool -> bool) => dom && existsb sel kinds in
       ( list_eqb (list_eqb cmd_eqb) (rrun o (rnew h w false) ops) impl
-        && Bool.eqb overlap (dom && ovl),
+        (* the harness's class tags are the Coq-side classes, and together they are exactly Overlap *)
+        && Bool.eqb oii (any (fun k => fst (fst k)))
+        && Bool.eqb owi (any (fun k => snd (fst k)))
+        && Bool.eqb oww (any (fun k => snd k))
+        && Bool.eqb (oii || owi || oww) (dom && ovl),
         (* outside the property's domain (zero-width characters, a wide character in the
            last column, empty images) only the agreement of model and code is checked *)
         negb dom || spec_run o h w (blank_screen h w) (gmake h w cell_default) ops impl )
+  | Forced hN wN widths isizes fsp fer ers g foreign s impl good =>
+      let h := N.to_nat hN in
+      let w := N.to_nat wN in
+      let o := mk_oracle widths isizes fsp fer ers in
+      let fp := map (fun '(i, r, c) => (i, N.to_nat r, N.to_nat c)) foreign in
+      let isgood := in_domain o h w s && no_image_overlap o h w s && grid_dims g h w in
+      ( list_eqb cmd_eqb (fst (frame o (rdraw (rnew h w true) s))) impl && Bool.eqb good isgood,
+        (* C01_forced on the implementation's commands: every cell as repainted from scratch, whatever
+           the terminal showed; placements = the foreign ones and the drawn ones *)
+        negb isgood
+        || (let scr' := exec_list o (mkscreen h w g fp (0, 0) face_default false) impl in
+            let sh := show o h w s in
+            sgrid_eqb (sgrid scr') (sgrid sh) && negb (err scr')
+            && places_eqb (places scr') (fp ++ places sh)) )
+  | Loop hN wN widths isizes fsp fer ers its impl good stale =>
+      let h := N.to_nat hN in
+      let w := N.to_nat wN in
+      let o := mk_oracle widths isizes fsp fer ers in
+      let isgood := forallb (fun it => in_domain o h w (it_draw it) && no_image_overlap o h w (it_draw it)) its in
+      let '(ok, st) := loop_spec o h w (blank_screen h w) [] (gmake h w cell_default) its impl in
+      ( list_eqb (fun a b => Bool.eqb (fst a) (fst b) && list_eqb cmd_eqb (snd a) (snd b))
+                 (loop_model o (rnew h w false) 0 its) impl
+        && Bool.eqb good isgood && Bool.eqb stale (isgood && st),
+        (* every delivered frame is displayed right (C01_render_loop on the implementation's commands) *)
+        negb isgood || ok )
   end.
 
 Definition c01_report := report c01_check.
